@@ -65,7 +65,7 @@ def usage_cells():
         "force+fallback": ["--force-dot-license", "--fallback-dot-license"], "force+skip-unrecognised": ["--force-dot-license", "--skip-unrecognised"],
         "fallback+skip-unrecognised": ["--fallback-dot-license", "--skip-unrecognised"], "style+skip-unrecognised": ["--style", "python", "--skip-unrecognised"],
         "unknown-template": ["--template", "does-not-exist"], "unknown-style": ["--style", "nosuchstyle"], "bad-prefix": ["--copyright-prefix", "nosuch"],
-        "bad-expression": ["--license", "MIT AND AND"],
+        "bad-expression": ["--license", "MIT AND AND"], "empty-expression": ["--license", ""], "blank-expression": ["--license", "  "],
     }.items():
         yield {"name": name, "argv": base + extra, "bad": None, "pos": 0}
     yield {"name": "nothing-requested", "argv": ["--year", "2020"], "bad": None, "pos": 0}
@@ -88,6 +88,11 @@ def cases(tier, seed):
                 yield {"k": "mix", "sel": list(sel), "target": "in-file", "toks": list(toks), "variant": i % 4}
     for sel in itertools.combinations(kinds, 3):
         yield {"k": "mix", "sel": list(sel), "target": "force-dot-license", "toks": list(TOKENS)}
+    # option values that cannot be written as UTF-8 (what the shell hands over for Latin-1 bytes arrives as lone surrogates)
+    for where in ("copyright", "contributor"):
+        for sel in itertools.permutations(["H1", "H3", "C3", "BIN", "X1"], 2):
+            for target in ("in-file", "force-dot-license"):
+                yield {"k": "unencodable", "where": where, "sel": list(sel), "target": target}
     for tpl in DROPPING + BROKEN:
         for target in ("in-file", "force-dot-license", "fallback-dot-license"):
             for sel in itertools.permutations(["H1", "X1", "H3", "BIN", "C3"], 2):
@@ -226,6 +231,38 @@ def ev_tpl(c) -> R:
     return r
 
 
+def ev_unencodable(c) -> R:
+    from ..cli import run_cli
+
+    r = R()
+    root = fresh_dir("c11")
+    recipe, names = {}, []
+    for k in c["sel"]:
+        recipe.update(KINDS[k][1])
+        names.append(KINDS[k][0])
+    materialise(root, recipe)
+    value = "M\udcfcller GmbH"
+    argv = ["--license", "MIT", "--year", "2020"] + (["--copyright", value] if c["where"] == "copyright" else ["--copyright", "Jane Doe", "--contributor", value])
+    if c["target"] != "in-file":
+        argv.append("--" + c["target"])
+    before = read_tree(root)
+    res = run_cli(["annotate", *argv, *names], cwd=str(root))
+    after = read_tree(root)
+    label = f"annotate with an option value that is not valid UTF-8 ({c['where']}) on {names} ({c['target']})"
+    if res.exc:
+        r.violation(f"crash|unencodable|{c['where']}", f"{label}: {res.exc_repr}")
+    elif res.exit_code == 0:
+        r.violation(f"unencodable-accepted|{c['where']}", f"{label}: exit 0")
+    if after != before:
+        changed = sorted(p for p in set(after) | set(before) if after.get(p) != before.get(p))
+        emptied = [p for p in changed if p in after and after[p] == b"" and before.get(p)]
+        r.violation(f"unencodable-tree-changed|{c['where']}|{c['target']}" + ("|file-emptied" if emptied else ""),
+                    f"{label}: nothing can be written, but the tree changed: {changed}" + (f"; EMPTIED: {emptied}" if emptied else ""))
+    r.outcome = f"unencodable-exit{res.exit_code}"
+    r.tags.append("unencodable")
+    return r
+
+
 def ev_capability(c) -> R:
     """A line mode the style does not have (frozen table, refmodel/styles.py) is a usage error for the whole invocation: exit status 2,
     nothing touched - also not the healthy file named next to it."""
@@ -309,7 +346,7 @@ def ev_usage(c) -> R:
     return r
 
 
-_EV = {"mix": ev_mix, "tpl": ev_tpl, "usage": ev_usage, "capability": ev_capability}
+_EV = {"mix": ev_mix, "tpl": ev_tpl, "usage": ev_usage, "capability": ev_capability, "unencodable": ev_unencodable}
 
 
 def evaluate(c) -> R:
